@@ -308,6 +308,15 @@ def clear (st : State) (clearConstants : Bool) : State :=
 def printable (s : Store) : Store :=
   (s.filter (fun kv => kv.1.2 != constSel)).map (fun kv => (kv.1, kv.2.filter (fun pv => pv.2.representable)))
 
+/-- the `# Set in file:line:` attributions `_config_str` prints for a store (2138-2140, 2180-2182,
+    2204-2205): for every printed parameter, the recorded location of the statement that last set
+    it, if any -/
+def provenanceOf (st : State) (s : Store) : List ((Scope × Sel) × String × Loc) :=
+  (printable s).flatMap (fun kv => kv.2.filterMap (fun pv =>
+    match AList.lookup pv.1 ((AList.lookup kv.1 st.prov).getD []) with
+    | some (some loc) => some (kv.1, pv.1, loc)
+    | _ => none))
+
 /-- `singleton_value(key, constructor)` (2757-2766): look up or construct-and-cache. -/
 def singletonUse (st : State) (key : String) (hasCtor : Bool) : Except Err (State × Val) :=
   match AList.lookup key st.singletons with
